@@ -61,6 +61,26 @@ def setSeq (E : Env) (kf vf : Option FieldSpec) : List (Val × Val) → List (Va
     | .error e => (d, .rejected e)
     | .ok (k', v') => setSeq E kf vf (dictSet k' v' d) rest
 
+/-- the entry held under the key's normal form, when the key is acceptable -/
+def presentUnder (E : Env) (kf : Option FieldSpec) (d : List (Val × Val)) (k : Val) : Option Val :=
+  match validateOpt E kf k with
+  | .ok k0 => dictLookup k0 d
+  | .error _ => none
+
+theorem presentUnder_of_ok {E : Env} {kf vf : Option FieldSpec} {k x k' v' : Val} (d : List (Val × Val))
+    (h : validateEntry E kf vf k x = .ok (k', v')) : presentUnder E kf d k = dictLookup k' d := by
+  unfold validateEntry at h
+  unfold presentUnder
+  cases hk : validateOpt E kf k with
+  | error e => simp [hk] at h
+  | ok k0 =>
+    simp only [hk] at h ⊢
+    cases hv : validateOpt E vf x with
+    | error e => simp [hv] at h
+    | ok v0 =>
+      simp only [hv, Except.ok.injEq, Prod.mk.injEq] at h
+      rw [h.1]
+
 def dstep (E : Env) (kf vf : Option FieldSpec) (d : List (Val × Val)) : DOp → List (Val × Val) × DOut
   | .set k v =>
     (match validateEntry E kf vf k v with
@@ -76,12 +96,16 @@ def dstep (E : Env) (kf vf : Option FieldSpec) (d : List (Val × Val)) : DOp →
      | .error e => (d, .rejected e)
      | .ok d1 => setSeq E kf vf d1 kw)
   | .setdefault k v =>
-    (match validateEntry E kf vf k (v.getD .none) with
-     | .error e => (d, .rejected e)
-     | .ok (k', v') =>
-       (match dictLookup k' d with
-        | some old => (d, .value old)
-        | none => (dictSet k' v' d, .value v')))
+    -- an entry that is present under the normalised key is returned before the default is looked at (like dict.setdefault; F55)
+    (match presentUnder E kf d k with
+     | some old => (d, .value old)
+     | none =>
+       (match validateEntry E kf vf k (v.getD .none) with
+        | .error e => (d, .rejected e)
+        | .ok (k', v') =>
+          (match dictLookup k' d with
+           | some old => (d, .value old)
+           | none => (dictSet k' v' d, .value v'))))
   | .ior pairs =>
     if pairs.isEmpty then (d, .none) else
     (match validateEntries E kf vf pairs with
